@@ -276,9 +276,11 @@ class GcodeHandlers(object):
 
         extruderPosition = None
         feedRate = None
-        x = position.X_AXIS.nativeToLogical()
-        y = position.Y_AXIS.nativeToLogical()
-        z = position.Z_AXIS.nativeToLogical()
+        startX = position.X_AXIS.nativeToLogical()
+        startY = position.Y_AXIS.nativeToLogical()
+        x = None
+        y = None
+        z = None
         radius = None
         i = 0
         j = 0
@@ -302,12 +304,38 @@ class GcodeHandlers(object):
                 elif (label == "J"):
                     j = value
 
+        # In relative positioning mode (G91) the X/Y/Z words are offsets from the current
+        # position.  The arc is planned in absolute logical coordinates either way.
+        relativeMode = not position.X_AXIS.absoluteMode
+        if (relativeMode):
+            x = startX + (0 if (x is None) else x)
+            y = startY + (0 if (y is None) else y)
+        else:
+            if (x is None):
+                x = startX
+            if (y is None):
+                y = startY
+            if (z is None):
+                z = position.Z_AXIS.nativeToLogical()
+
         # Based on Marlin 1.1.8
         if (radius is not None):
             (i, j) = self.computeArcCenterOffsets(x, y, radius, clockwise)
 
         if (i or j):
             xyPairs = self.planArc(x, y, i, j, clockwise)
+            if (relativeMode):
+                # processLinearMoves interprets the pairs in the current positioning mode, so
+                # express each point as an offset from the previous one
+                relativePairs = []
+                prevX = startX
+                prevY = startY
+                for index in range(0, len(xyPairs), 2):
+                    relativePairs += [xyPairs[index] - prevX, xyPairs[index + 1] - prevY]
+                    prevX = xyPairs[index]
+                    prevY = xyPairs[index + 1]
+                xyPairs = relativePairs
+
             return self.state.processLinearMoves(cmd, extruderPosition, feedRate, z, *xyPairs)
 
         return None
